@@ -50,15 +50,15 @@ class Gen:
         "clear": 1, "copy": 2, "cleanup": 3, "relabel": 2, "freeze": 1,
     }
 
-    def __init__(self, rng, weights=None, malformed=0.04, frozen_links=False):
+    def __init__(self, rng, weights=None, malformed=0.04, frozen_links=True):
         self.rng = rng
         self.nodes = rng.choice(NODE_UNIVERSES)
         self.eids = rng.choice(EDGE_UNIVERSES)
         self.malformed = malformed
         self.weights = weights or {}
-        # `freeze()` of the current tree does not cover add_node_to_edge / remove_node_from_edge (finding F12,
-        # property C18); the model describes the completed list.  Unless asked, histories do not call these
-        # two on a frozen network, so this module stays neutral on F12.
+        # `freeze()` covers add_node_to_edge / remove_node_from_edge since /repo 85761ac (finding F12, property
+        # C18) and the model lists them as guarded.  With frozen_links=False histories do not call these two on
+        # a frozen network (for running against trees older than that fix).
         self.frozen_links = frozen_links
         self.is_frozen = False
 
@@ -188,7 +188,7 @@ class Gen:
         raise AssertionError(name)
 
 
-def gen_history(rng, lo=1, hi=30, weights=None, malformed=0.04, frozen_links=False):
+def gen_history(rng, lo=1, hi=30, weights=None, malformed=0.04, frozen_links=True):
     g = Gen(rng, weights, malformed, frozen_links)
     k = rng.randint(lo, hi)
     ops = []
